@@ -692,6 +692,16 @@ def choose_click(rng, frame, auth_spec, leaves):
 TILE_SERVICES = ['tms', 'tiles', 'tiles_nw', 'wmts_kvp', 'wmts_rest', 'kml', 'kml_doc']
 
 
+def tile_rows_from_top(service, leaf):
+    """WMTS and origin=nw count rows from the top, TMS and KML from the bottom, /tiles without origin parameter uses
+    the origin the grid was configured with"""
+    if service.startswith('wmts') or service == 'tiles_nw':
+        return True
+    if service == 'tiles':
+        return leaf['origin'] == 'ul'
+    return False
+
+
 def tile_frame(leaf, z, x, y, nw):
     G = GRIDS[leaf['grid']]
     span = G['r0'] / 2 ** z * TILE
@@ -715,8 +725,7 @@ def gen_tile_probe(rng, spec, fi=False):
     n = 2 ** z
     x, y = rng.randrange(n), rng.randrange(n)
     service = rng.choice(['wmts_fi_kvp', 'wmts_fi_rest']) if fi else rng.choice(TILE_SERVICES)
-    nw = service.startswith('wmts') or service == 'tiles_nw'
-    frame = tile_frame(leaf, z, x, y, nw)
+    frame = tile_frame(leaf, z, x, y, tile_rows_from_top(service, leaf))
     auth = gen_auth(rng, spec, frame, [name])
     probe = {'service': service, 'req': {'layer': name, 'z': z, 'x': x, 'y': y}, 'auth': auth,
              'order': rng.choice(['auth_first', 'ref_first'])}
@@ -862,6 +871,12 @@ def exec_probe(ctx, probe):
         ctx.up.reset_log()
         r = wsgi_call(ctx.sc.app, url, cb)
         return r, list(ctx.up.log)
+    # a stored jpeg cache answers from the raw (still transparent) upstream image while it creates a tile and from the
+    # opaque jpeg afterwards: make restricted and reference run see the same state
+    touched = resolve(SHAPES[ctx.spec['shape']], req['layers'] + req.get('query_layers', [])) if svc in ('wms_map', 'wms_fi') else [req['layer']]
+    if any(ctx.spec['leaves'][lf]['kind'] == 'cache_jpeg' and ctx.spec['leaves'][lf].get('store') for lf in touched):
+        do(full_auth)
+        run.count('primed_jpeg_cache')
     if probe.get('order') == 'ref_first':
         ref, refcalls = do(full_auth)
         r, calls = do(auth)
@@ -1232,10 +1247,13 @@ def judge_tile(ctx, probe, auth, r, ref, calls):
     req = probe['req']
     name = req['layer']
     leaf, upn, code = layer_meta(ctx, name)
-    nw = svc.startswith('wmts') or svc == 'tiles_nw'
+    nw = tile_rows_from_top(svc, leaf)
     frame = tile_frame(leaf, req['z'], req['x'], req['y'], nw)
     mode = auth.spec['mode']
     ok = auth.permitted(name, 'tile')
+    qe = [c[2] for c in auth.calls if c[2]]
+    if qe and max(abs(a - b) for a, b in zip(qe[0][1], frame.bbox)) > 1e-6 * abs(frame.bbox[2] - frame.bbox[0]):
+        run.count('query_extent_differs_from_address_rectangle:' + svc)
     exp = (401,) if mode == 'unauthenticated' else ((200,) if ok else (403,))
     family = {'tms': 'tms', 'tiles': 'tms', 'tiles_nw': 'tms', 'wmts_kvp': 'wmts', 'wmts_rest': 'wmts', 'kml': 'kml', 'kml_doc': 'kml'}[svc]
     run.hit('family_' + family)
